@@ -4,7 +4,7 @@
 From Coq Require Import List NArith ZArith Bool Lia.
 From V.Lib Require Import Base Hex.
 From V.Gen Require Import C03Tables.
-From V.C03 Require Import Codec Sha256 Model Spec Corr Wf Proofs.
+From V.C03 Require Import Codec Model Spec Corr Wf Proofs.
 Import ListNotations.
 Local Open Scope N_scope.
 
@@ -69,7 +69,7 @@ Section BridgeTx.
     destruct t as [v body]. cbn [fst] in *.
     unfold c_tx in W'. rewrite wf_dep in W'. cbn [fst snd] in W'. apply andb_true_iff in W' as [Hv _].
     unfold c_version in Hv. cbn [c_iso wf] in Hv. apply andb_true_iff in Hv as [Hv _].
-    destruct v as [n| | | |]; try (vm_compute; reflexivity).
+    destruct v as [n| | | |]; [| vm_compute; reflexivity ..].
     cbn [hdr_to fst is_legacy]. unfold txv_ok in Hv. apply andb_true_iff in Hv as [_ Hv].
     unfold OVW in Hv. rewrite Hv. reflexivity.
   Qed.
@@ -113,7 +113,8 @@ Section BridgeTx.
       apply andb_true_iff in W as [W _]. apply andb_true_iff in W as [W _]. apply wf_u32 in W.
       cbn [c_tx c_dep enc fst snd c_body c_inr c_inl c_v5 c_hdrfrag c_pair c_refine
            c_version c_iso c_hdr_raw hdr_to c_u32le c_uint c_opt].
-      change (OVW <=? OVW + V5_TX_VERSION) with true. cbn [c_some enc].
+      change (OVW <=? OVW + V5_TX_VERSION) with true.
+      change (enc (c_opt true c_u32le) (Some V5_VERSION_GROUP_ID)) with (le 4 V5_VERSION_GROUP_ID).
       rewrite <- !app_assoc.
       rewrite (app_assoc (le 4 _) (le 4 _)).
       apply u32_at_app; [rewrite app_length, !le_length; reflexivity | exact W].
@@ -122,7 +123,8 @@ Section BridgeTx.
       apply andb_true_iff in W as [W _]. apply andb_true_iff in W as [W _]. apply wf_u32 in W.
       cbn [c_tx c_dep enc fst snd c_body c_inr c_inl c_v6 c_hdrfrag c_pair c_refine
            c_version c_iso c_hdr_raw hdr_to c_u32le c_uint c_opt].
-      change (OVW <=? OVW + V6_TX_VERSION) with true. cbn [c_some enc].
+      change (OVW <=? OVW + V6_TX_VERSION) with true.
+      change (enc (c_opt true c_u32le) (Some V6_VERSION_GROUP_ID)) with (le 4 V6_VERSION_GROUP_ID).
       rewrite <- !app_assoc.
       rewrite (app_assoc (le 4 _) (le 4 _)).
       apply u32_at_app; [rewrite app_length, !le_length; reflexivity | exact W].
@@ -132,12 +134,12 @@ End BridgeTx.
 Definition is_tx_or_hdr (c : case) : bool :=
   match c with Tx _ _ _ _ _ _ | Hdr _ _ _ _ => true | _ => false end.
 
-Theorem bridge : forall c,
-  is_tx_or_hdr c = true -> wf_case c = true -> run_case c = true -> prop_case c = true.
+Theorem bridge : forall H c,
+  is_tx_or_hdr c = true -> wf_case c = true -> run_caseH H c = true -> prop_caseH H c = true.
 Proof.
-  intros [src ctx b bad o alts | src b o alts | | | | ] K Wc R; try discriminate K; clear K.
+  intros H [src ctx b bad o alts | src b o alts | | | | ] K Wc R; try discriminate K; clear K.
   - (* transactions *)
-    cbn [wf_case] in Wc. cbn [run_case] in R. cbn [prop_case]. unfold tx_prop.
+    cbn [wf_case] in Wc. cbn [run_caseH] in R. cbn [prop_caseH]. unfold tx_prop.
     apply andb_true_iff in Wc as [Wc L].
     destruct (dec (c_tx (table_valid bad)) b) as [[t r]|] eqn:D.
     + destruct o as [[n rw txid br same gen]| |]; try discriminate R.
@@ -154,14 +156,15 @@ Proof.
           destruct r; [|discriminate L2]. unfold nlen in R at 1. cbn in R.
           rewrite (proj2 (N.eqb_eq n (nlen b))) by lia. apply orb_true_r. }
       cbn [andb]. rewrite F, <- R5, bytes_eqb_refl. cbn [andb].
-      rewrite E at 1. rewrite (legacy_hdr_enc _ t r W).
-      destruct (is_legacy (fst t)) eqn:Lg.
+      assert (HL : legacy_hdr b = is_legacy (fst t)) by (rewrite E; apply legacy_hdr_enc; exact W).
+      rewrite HL. destruct (is_legacy (fst t)) eqn:Lg.
       * cbn [negb orb] in R3. apply bytes_eqb_eq in R3. unfold legacy_txid, tx_write in R3.
-        rewrite <- R3, bytes_eqb_refl. rewrite <- R4, (legacy_branch _ ctx t W Lg), N.eqb_refl. reflexivity.
-      * rewrite E at 1. rewrite (encoded_branch _ ctx t r W Lg), R4, N.eqb_refl. reflexivity.
+        rewrite R3, bytes_eqb_refl. rewrite <- R4, (legacy_branch _ ctx t W Lg), N.eqb_refl. reflexivity.
+      * assert (HB : u32_at 8 b = effective_branch ctx t) by (rewrite E; apply encoded_branch; assumption).
+        rewrite HB, R4, N.eqb_refl. reflexivity.
     + destruct o as [x|e|]; try discriminate R. unfold label_ok in L. rewrite L, R. reflexivity.
   - (* block headers *)
-    cbn [wf_case] in Wc. cbn [run_case] in R. cbn [prop_case]. unfold hdr_prop.
+    cbn [wf_case] in Wc. cbn [run_caseH] in R. cbn [prop_caseH]. unfold hdr_prop.
     apply andb_true_iff in Wc as [Wc L].
     destruct (dec c_header b) as [[t r]|] eqn:D.
     + destruct o as [[n rw hash same]| |]; try discriminate R.
@@ -183,21 +186,21 @@ Proof.
 Qed.
 
 (** Agreement never coexists with a panic. *)
-Lemma no_panic_bridge : forall src ctx b bad alts, run_case (Tx src ctx b bad Panic alts) = false.
-Proof. intros. cbn [run_case]. destruct (dec _ b) as [[t r]|]; reflexivity. Qed.
+Lemma no_panic_bridge : forall H src ctx b bad alts, run_caseH H (Tx src ctx b bad Panic alts) = false.
+Proof. intros. cbn [run_caseH]. destruct (dec _ b) as [[t r]|]; reflexivity. Qed.
 
 (** What an agreeing, accepting transaction case says about the accepted bytes: the consumed
     prefix is the unique encoding of a well-formed model transaction, so all its length prefixes
     are canonical and bounded and all its amounts are in range. *)
-Lemma tx_bridge_model : forall src ctx b bad n rw txid br s g alts,
-  run_case (Tx src ctx b bad (Ok (TxOk n rw txid br s g)) alts) = true ->
+Lemma tx_bridge_model : forall H src ctx b bad n rw txid br s g alts,
+  run_caseH H (Tx src ctx b bad (Ok (TxOk n rw txid br s g)) alts) = true ->
   exists t r, dec (c_tx (table_valid bad)) b = Some (t, r) /\
               firstn (N.to_nat n) b = enc (c_tx (table_valid bad)) t /\
               wf (c_tx (table_valid bad)) t = true /\
               Forall amount_in_range (tx_unsigned_amounts t) /\
               Forall balance_in_range (tx_signed_amounts t).
 Proof.
-  intros src ctx b bad n rw txid br s g alts R. cbn [run_case] in R.
+  intros H src ctx b bad n rw txid br s g alts R. cbn [run_caseH] in R.
   destruct (dec (c_tx (table_valid bad)) b) as [[t r]|] eqn:D; [|discriminate].
   repeat match type of R with (_ && _ = true) => let X := fresh "R" in apply andb_true_iff in R as [R X] end.
   apply N.eqb_eq in R.
